@@ -147,12 +147,55 @@ def _to_symbolic_repr(model: Model) -> SymbolicRepr:
     return sym
 
 
+def _register_fn(
+    functions: dict[str, tuple[sympy.Expr, list[str]]],
+    fn_name: str,
+    expr: sympy.Expr,
+    args: list[str],
+) -> str:
+    """Register a function definition and return the name it is emitted under.
+
+    The expression is written in terms of the model names in `args`, but the emitted
+    function is called positionally. Two components can therefore only share one
+    definition if their expressions agree once the arguments are replaced by their
+    positions. Otherwise (different functions with the same name, repeated arguments,
+    clashes between the `init_` / `_stoich_` naming schemes) a new name is chosen.
+    """
+    # Every position needs its own parameter name, even if a model name is repeated
+    params: list[str] = []
+    for arg in args:
+        param, i = arg, 1
+        while param in params or (param != arg and param in args):
+            param, i = f"{arg}_{i}", i + 1
+        params.append(param)
+
+    def positional(expr: sympy.Expr, args: list[str]) -> sympy.Expr:
+        # first position wins for repeated names
+        mapping = {
+            sympy.Symbol(arg): sympy.Symbol(f"__arg{i}__")
+            for i, arg in reversed(list(enumerate(args)))
+        }
+        return cast(sympy.Expr, sympy.sympify(expr).xreplace(mapping))
+
+    name, i = fn_name, 1
+    while (existing := functions.get(name)) is not None:
+        old_expr, old_params = existing
+        if len(old_params) == len(params) and positional(
+            old_expr, old_params
+        ) == positional(expr, params):
+            break
+        name, i = f"{fn_name}_{i}", i + 1
+    functions[name] = (expr, params)
+    return name
+
+
 def _codegen_variable(
     k: str, var: SymbolicVariable, functions: dict[str, tuple[sympy.Expr, list[str]]]
 ) -> str:
     if isinstance(init := var.value, SymbolicFn):
-        fn_name = f"init_{init.fn_name}"
-        functions[fn_name] = (init.expr, init.args)
+        fn_name = _register_fn(
+            functions, f"init_{init.fn_name}", init.expr, init.args
+        )
         return f"""        .add_variable(
             {k!r},
             initial_value=InitialAssignment(fn={fn_name}, args={init.args!r}),
@@ -168,8 +211,9 @@ def _codegen_parameter(
     k: str, par: SymbolicParameter, functions: dict[str, tuple[sympy.Expr, list[str]]]
 ) -> str:
     if isinstance(init := par.value, SymbolicFn):
-        fn_name = f"init_{init.fn_name}"
-        functions[fn_name] = (init.expr, init.args)
+        fn_name = _register_fn(
+            functions, f"init_{init.fn_name}", init.expr, init.args
+        )
         return f"""        .add_parameter(
             {k!r},
             value=InitialAssignment(fn={fn_name}, args={init.args!r}),
@@ -206,11 +250,11 @@ def generate_mxlpy_code_from_symbolic_repr(
     # Derived
     derived_source = []
     for k, fn in model.derived.items():
-        functions[fn.fn_name] = (fn.expr, fn.args)
+        fn_name = _register_fn(functions, fn.fn_name, fn.expr, fn.args)
         derived_source.append(
             f"""        .add_derived(
                 {k!r},
-                fn={fn.fn_name},
+                fn={fn_name},
                 args={fn.args},
             )"""
         )
@@ -219,13 +263,17 @@ def generate_mxlpy_code_from_symbolic_repr(
     reactions_source = []
     for k, rxn in model.reactions.items():
         fn = rxn.fn
-        functions[fn.fn_name] = (fn.expr, fn.args)
+        rxn_fn_name = _register_fn(functions, fn.fn_name, fn.expr, fn.args)
 
         stoichiometry: list[str] = []
         for var, stoich in rxn.stoichiometry.items():
             if isinstance(stoich, SymbolicFn):
-                fn_name = f"{k}_stoich_{stoich.fn_name}"
-                functions[fn_name] = (stoich.expr, stoich.args)
+                fn_name = _register_fn(
+                    functions,
+                    f"{k}_stoich_{stoich.fn_name}",
+                    stoich.expr,
+                    stoich.args,
+                )
                 stoichiometry.append(
                     f""""{var}": Derived(fn={fn_name}, args={stoich.args!r})"""
                 )
@@ -236,7 +284,7 @@ def generate_mxlpy_code_from_symbolic_repr(
         reactions_source.append(
             f"""        .add_reaction(
                 "{k}",
-                fn={fn.fn_name},
+                fn={rxn_fn_name},
                 args={fn.args},
                 stoichiometry={{{",".join(stoichiometry)}}},
             )"""
